@@ -3118,8 +3118,11 @@ SDsetexternalfile(int32       id,       /* IN: dataset ID */
     else {
         int32 length;
 
-        /* look up the length */
-        length = var->len;
+        /* look up the length: a dataset with an unlimited dimension has no
+           record yet (its length is where the number of records is taken
+           from when the file is opened again), any other dataset has its
+           full extent, which an existing external file may already hold */
+        length = IS_RECVAR(var) ? 0 : var->len;
 
         /* element doesn't exist so we need a reference number */
         var->data_ref = Hnewref(handle->hdf_file);
